@@ -209,6 +209,43 @@ def p_eval(p: dict, val: dict):
     return tot
 
 
+import decimal as _decimal
+
+_DCTX = _decimal.Context(prec=120)
+_DEC_EPS = _decimal.Decimal("1e-90")
+_DEC_ATOM: dict = {}
+
+
+def _atom_dec(i):
+    a = ATOMS[i]
+    v = _DEC_ATOM.get(i)
+    if v is not None and v[0] is a:
+        return v[1]
+    if a.kind != "root":
+        return None
+    r = p_eval_dec(a.rpoly)
+    if r is None or r < 0:
+        return None
+    d = _DCTX.sqrt(r)
+    _DEC_ATOM[i] = (a, d)
+    return d
+
+
+def p_eval_dec(p: dict):
+    """120-digit evaluation of an algebraic constant (root atoms only)."""
+    tot = _decimal.Decimal(0)
+    for m, c in p.items():
+        t = _DCTX.divide(_decimal.Decimal(c.numerator), _decimal.Decimal(c.denominator))
+        for a, e in m:
+            v = _atom_dec(a)
+            if v is None:
+                return None
+            for _ in range(e):
+                t = _DCTX.multiply(t, v)
+        tot = _DCTX.add(tot, t)
+    return tot
+
+
 def p_str(p: dict) -> str:
     if not p:
         return "0"
@@ -352,6 +389,11 @@ class Cond:
             if p_is_const(p):
                 c = p_const_val(p)
                 return {"==": c == 0, "!=": c != 0, "<": c < 0, "<=": c <= 0}[op]
+            if _is_alg_const(p):
+                # algebraic constant: decide numerically when clearly non-zero
+                v = p_eval_dec(p)
+                if v is not None and abs(v) > _DEC_EPS:
+                    return {"==": False, "!=": True, "<": v < 0, "<=": v <= 0}[op]
             return None
         vals = [a.const_value() for a in self.args]
         if op == "and":
@@ -736,6 +778,38 @@ def fn(name: str, *args: Sx) -> Sx:
     return Sx(patom(a))
 
 
+def _fn_arg(x: Sx, name: str):
+    """if x is exactly one fn atom `name`, return its argument polynomial."""
+    if x.im or len(x.re) != 1:
+        return None
+    (m, c), = x.re.items()
+    if c != 1 or len(m) != 1 or m[0][1] != 1:
+        return None
+    a = ATOMS[m[0][0]]
+    if a.kind == "fn" and a.data[0] == name:
+        return a.data[1][0]
+    return None
+
+
+def pow10(e: Sx) -> Sx:
+    """10**e, uninterpreted except for: 10**log10(z) == z, 10**e > 0,
+    monotone around 1 (constraints emitted by the solver layer)."""
+    inner = _fn_arg(e, "log10")
+    if inner is not None:
+        return Sx(inner)
+    return fn("pow10", e)
+
+
+def log10(z: Sx) -> Sx:
+    inner = _fn_arg(z, "pow10")
+    if inner is not None:
+        return Sx(inner)
+    pos = z > 0
+    if not pos:
+        raise ValueError("math domain error")
+    return fn("log10", z)
+
+
 # --------------------------------------------------------------------------
 # roots
 # --------------------------------------------------------------------------
@@ -843,6 +917,8 @@ def spow(b, e):
     """b ** e with exact results for the exponents the library uses."""
     if isinstance(e, Sx):
         if not e.is_const() or e.im:
+            if not e.im and not isinstance(b, (Sx, Ang)) and b == 10:
+                return pow10(e)
             raise Unsupported("symbolic exponent")
         e = e._rat()
     if isinstance(e, (float, int, Fraction)) and not isinstance(e, bool):
@@ -1184,6 +1260,14 @@ class Ang:
 
     def sin(self):
         return ang_sin(self)
+
+    def __round__(self, n=None):
+        if self.terms and not all(a.value is not None for a in self.terms):
+            return self
+        return round(float(self), n)
+
+    def __format__(self, spec):
+        return repr(self)
 
     def __repr__(self):
         parts = [f"{k}*{a.name}" for a, k in self.terms.items()]
